@@ -52,9 +52,17 @@ type Cfg struct {
 	MaxSeg   int64 `json:"max_segment_size"`
 	MaxSize  int64 `json:"max_size"`       // initial ("large") maximum queue size
 	SmallMax int64 `json:"small_max_size"` // value used by the shrink op (the smallest the queue accepts: 2*MaxSeg)
+	// ByteFamily: the history uses appendB ops (payload byte alphabet of the crash family); the block verification
+	// function then also accepts every well-formed entry of that alphabet.
+	ByteFamily bool `json:"byte_family,omitempty"`
 }
 
 var DefaultCfg = Cfg{MaxSeg: 40, MaxSize: 1024, SmallMax: 80}
+
+// ByteCfg is the geometry of the payload-byte family of the crash histories: the segment is large enough that two
+// acknowledged entries and the append in flight (<= 64 bytes) share ONE segment file, so the last 8 bytes of a torn
+// append are read as the footer of a segment that holds acknowledged entries.
+var ByteCfg = Cfg{MaxSeg: 160, MaxSize: 1024, SmallMax: 320, ByteFamily: true}
 
 // Ops of the history alphabet.
 const (
@@ -71,10 +79,109 @@ const (
 	OpGrow      = "growMax"   // SetMaxSize(MaxSize)
 )
 
+// OpAppendB is the parametrised append of the crash family's payload-byte alphabet: "appendB:<len>:<fill>" appends an
+// entry of <len> bytes whose content is the fill pattern <fill> (see FillPattern). It is not part of the sequence
+// family's alphabet.
+const OpAppendB = "appendB"
+
+func AppendB(n int, fill string) string { return fmt.Sprintf("%s:%d:%s", OpAppendB, n, fill) }
+
+// parseAppendB splits an appendB op.
+func parseAppendB(op string) (n int, fill string, ok bool) {
+	f := strings.Split(op, ":")
+	if len(f) != 3 || f[0] != OpAppendB {
+		return 0, "", false
+	}
+	n, err := strconv.Atoi(f[1])
+	if err != nil || n < 1 || n > MaxByteLen || !knownFill(f[2]) {
+		return 0, "", false
+	}
+	return n, f[2], true
+}
+
+func isAppend(op string) bool {
+	return op == OpAppend1 || op == OpAppend9 || op == OpAppendSeg || strings.HasPrefix(op, OpAppendB+":")
+}
+
+// MaxByteLen bounds the payload length of an appendB op.
+const MaxByteLen = 64
+
+// Fill patterns of the payload-byte alphabet. The single-byte fills repeat one byte value; "L" repeats the unique
+// lower-case letter of the op position (the payload the other ops use); the mixed fills combine bytes with and without
+// the high bit so that the 8-byte windows of the payload decode (big endian) to negative-as-signed, huge positive and
+// small values.
+var (
+	ByteFillsQuick    = []string{"00", "01", "L", "7f", "80", "ff", "mix"}
+	ByteFillsThorough = []string{"00", "01", "L", "7f", "80", "ff", "mix", "inc80", "min64", "ff-00", "00-ff", "fe"}
+)
+
+func knownFill(fill string) bool {
+	for _, f := range ByteFillsThorough {
+		if f == fill {
+			return true
+		}
+	}
+	return false
+}
+
+// FillPattern returns the n-byte payload of a fill.
+func FillPattern(fill string, n int, letter byte) []byte {
+	b := make([]byte, n)
+	for i := range b {
+		switch fill {
+		case "L":
+			b[i] = letter
+		case "mix": // ff 00 80 01 ff 00 80 01 ...
+			b[i] = []byte{0xff, 0x00, 0x80, 0x01}[i%4]
+		case "inc80": // 80 81 82 ...: every byte has the high bit, all positions differ
+			b[i] = 0x80 | byte(i%128)
+		case "min64": // 80 00 00 00 00 00 00 00 repeated: the aligned window is the smallest int64
+			if i%8 == 0 {
+				b[i] = 0x80
+			}
+		case "ff-00": // first half ff, second half 00
+			if i < (n+1)/2 {
+				b[i] = 0xff
+			}
+		case "00-ff": // first half 00, second half ff
+			if i >= n/2 {
+				b[i] = 0xff
+			}
+		default: // two hex digits: one byte value repeated
+			v, _ := strconv.ParseUint(fill, 16, 8)
+			b[i] = byte(v)
+		}
+	}
+	return b
+}
+
+// legalByteEntry: b is a well-formed entry of the payload-byte alphabet (some fill pattern of its length).
+func legalByteEntry(b []byte) bool {
+	if len(b) < 1 || len(b) > MaxByteLen {
+		return false
+	}
+	for _, f := range ByteFillsThorough {
+		letter := byte('a')
+		if f == "L" {
+			if b[0] < 'a' || b[0] > 'z' {
+				continue
+			}
+			letter = b[0]
+		}
+		if bytes.Equal(b, FillPattern(f, len(b), letter)) {
+			return true
+		}
+	}
+	return false
+}
+
 var Alphabet = []string{OpAppend1, OpAppend9, OpAppendSeg, OpAdvance, OpScan1, OpScanAll, OpReopen, OpPurgeNone, OpPurgeAll, OpShrink, OpGrow}
 
 // EntryFor returns the unique payload of the append at op position i: a letter repeated.
 func EntryFor(cfg Cfg, op string, i int) []byte {
+	if n, fill, ok := parseAppendB(op); ok {
+		return FillPattern(fill, n, byte('a'+i%26))
+	}
 	n := 1
 	switch op {
 	case OpAppend9:
@@ -86,9 +193,12 @@ func EntryFor(cfg Cfg, op string, i int) []byte {
 }
 
 // VerifyBlock is the block verification function given to the queue: an entry is a run of one lower-case letter
-// of one of the three lengths of the alphabet.
+// of one of the three lengths of the alphabet; in a payload-byte history also every well-formed entry of that alphabet.
 func VerifyBlock(cfg Cfg) func([]byte) error {
 	return func(b []byte) error {
+		if cfg.ByteFamily && legalByteEntry(b) {
+			return nil
+		}
 		if len(b) != 1 && len(b) != 9 && len(b) != int(cfg.MaxSeg) {
 			return fmt.Errorf("bad entry length %d", len(b))
 		}
@@ -136,8 +246,16 @@ func short(b []byte) string {
 	if len(b) == 0 {
 		return `""`
 	}
+	for _, c := range b {
+		if c != b[0] { // not a run of one byte value: a mixed fill pattern or garbage
+			if len(b) > 12 {
+				return fmt.Sprintf("x%x..(%d)", b[:12], len(b))
+			}
+			return fmt.Sprintf("x%x(%d)", b, len(b))
+		}
+	}
 	if b[0] < 0x21 || b[0] > 0x7e {
-		return fmt.Sprintf("0x%02x*%d", b[0], len(b)) // garbage (never an entry of the alphabet)
+		return fmt.Sprintf("0x%02x*%d", b[0], len(b))
 	}
 	return fmt.Sprintf("%c*%d", b[0], len(b))
 }
@@ -250,11 +368,18 @@ func performHistory(dir string, cfg Cfg, ops []string, keepOpen bool, hook OpHoo
 
 	for i, op := range ops {
 		result := "ok"
-		if op != OpAppend1 && op != OpAppend9 && op != OpAppendSeg {
+		if !isAppend(op) {
 			hook(i, op, true, "") // appends: after the (read-only) disk usage probe, right before the real call
 		}
-		switch op {
-		case OpAppend1, OpAppend9, OpAppendSeg:
+		kind, opName := op, op
+		if isAppend(op) {
+			kind = OpAppend1
+			if strings.HasPrefix(op, OpAppendB) {
+				opName = OpAppendB
+			}
+		}
+		switch kind {
+		case OpAppend1:
 			b := EntryFor(cfg, op, i)
 			usage := diskUsage(dir)
 			hook(i, op, true, "")
@@ -263,7 +388,7 @@ func performHistory(dir string, cfg Cfg, ops []string, keepOpen bool, hook OpHoo
 				result = "rejected:" + errClass(err)
 				// rejected: the queue must be unchanged (verified by every later observation)
 				m.Rejected = append(m.Rejected, b)
-				out(op + ":rejected:" + errClass(err))
+				out(opName + ":rejected:" + errClass(err))
 				// only the size limit may reject: with the segment files using `usage` bytes, this entry plus its
 				// length word plus a possible new segment footer still fits
 				if usage >= 0 && usage+int64(len(b))+16 <= m.MaxSize {
@@ -272,7 +397,7 @@ func performHistory(dir string, cfg Cfg, ops []string, keepOpen bool, hook OpHoo
 				}
 			} else {
 				m.Appended = append(m.Appended, b)
-				out(op + ":ok")
+				out(opName + ":ok")
 				// size limit: even counting payload bytes only, the limit would be exceeded
 				if p := m.remainingPayload(); p > m.MaxSize {
 					res.Fail = &Fail{"size-limit-not-enforced", "Append", fmt.Sprintf("Append of %d bytes accepted although the not-yet-advanced payload is then %d bytes > max size %d", len(b), p, m.MaxSize), i}
@@ -421,9 +546,10 @@ func performHistory(dir string, cfg Cfg, ops []string, keepOpen bool, hook OpHoo
 }
 
 func opClass(op string) string {
-	switch op {
-	case OpAppend1, OpAppend9, OpAppendSeg:
+	if isAppend(op) {
 		return "append"
+	}
+	switch op {
 	case OpScan1, OpScanAll:
 		return "scan"
 	}
@@ -779,6 +905,7 @@ func crashHistories(tier string) []CrashHistory {
 		// the head segment while the tail is another segment
 		{Name: "advance-append", Cfg: cfg, Ops: []string{OpAppend1, OpAppend1, OpAdvance, OpAppend9, OpAppend9, OpAdvance, OpAppend9, OpAppend1}},
 	}
+	hs = append(hs, byteHistories(tier)...)
 	if tier != "thorough" {
 		return hs
 	}
@@ -795,6 +922,102 @@ func crashHistories(tier string) []CrashHistory {
 		return true
 	})
 	return hs
+}
+
+// bytePrefix is an acknowledged history in front of the append in flight of the payload-byte family.
+type bytePrefix struct {
+	Name string
+	Cfg  Cfg
+	Ops  []string
+}
+
+// byteHistories is the payload-byte family: (acknowledged prefix) x (payload length) x (fill pattern), each ONE recorded
+// history "prefix, appendB:<len>:<fill>" of which only the cuts inside or after the appendB are evaluated. The write of
+// segment.append (length word | payload | footer, overwriting the old footer) is torn at EVERY byte length, so the last
+// 8 bytes of the tail segment file run through every window of (old footer | length word | payload | new footer).
+func byteHistories(tier string) []CrashHistory {
+	rolled := DefaultCfg
+	rolled.ByteFamily = true
+	prefixes := []bytePrefix{
+		{"fresh", ByteCfg, nil}, // the append overwrites the initial footer of an empty segment
+		{"after-9", ByteCfg, []string{OpAppend9}},
+		{"after-1", ByteCfg, []string{OpAppend1}},
+		{"after-1,9", ByteCfg, []string{OpAppend1, OpAppend9}},
+		{"after-9,9", ByteCfg, []string{OpAppend9, OpAppend9}},
+		{"after-9,advance", ByteCfg, []string{OpAppend9, OpAdvance}},              // footer position 17, nothing left to deliver
+		{"after-9,9,advance", ByteCfg, []string{OpAppend9, OpAppend9, OpAdvance}}, // footer position 17, one entry left
+		{"rolled-after-9,9", rolled, []string{OpAppend9, OpAppend9}},              // max segment size 40: the append creates segment 2, the acknowledged entries are in segment 1
+	}
+	lens := []int{1, 8, 9, 16, 17, 40}
+	fills := ByteFillsQuick
+	if tier == "thorough" {
+		prefixes = append(prefixes,
+			bytePrefix{"after-1,1", ByteCfg, []string{OpAppend1, OpAppend1}},
+			bytePrefix{"after-9,1", ByteCfg, []string{OpAppend9, OpAppend1}},
+			bytePrefix{"after-1,advance", ByteCfg, []string{OpAppend1, OpAdvance}},
+			bytePrefix{"after-1,9,advance", ByteCfg, []string{OpAppend1, OpAppend9, OpAdvance}},
+			bytePrefix{"after-9,reopen", ByteCfg, []string{OpAppend9, OpReopen}},
+			bytePrefix{"after-9,9,scanAll", ByteCfg, []string{OpAppend9, OpAppend9, OpScanAll}},
+		)
+		// 26 and 34 are the record boundaries behind the prefixes (1 B, 9 B) and (9 B, 9 B)
+		lens = []int{1, 2, 7, 8, 9, 10, 15, 16, 17, 18, 24, 25, 26, 32, 33, 34, 40, 64}
+		fills = ByteFillsThorough
+	}
+	var hs []CrashHistory
+	for _, n := range lens {
+		for _, f := range fills {
+			for _, p := range prefixes {
+				ops := append(append([]string(nil), p.Ops...), AppendB(n, f))
+				hs = append(hs, CrashHistory{Name: fmt.Sprintf("bytes:%s:%d:%s", p.Name, n, f), Cfg: p.Cfg, Ops: ops, LastOnly: true})
+			}
+		}
+	}
+	return hs
+}
+
+// tailWindowClass classifies the last 8 bytes of the highest-numbered segment file of an image the way segment.open
+// reads them (a big-endian head position): for the coverage report of the payload-byte family.
+func tailWindowClass(im *crashfs.Image) string {
+	var tail *crashfs.File
+	var tailID uint64
+	for i := range im.Files {
+		f := &im.Files[i]
+		if f.Dir {
+			continue
+		}
+		id, err := strconv.ParseUint(filepath.Base(f.Path), 10, 64)
+		if err != nil {
+			continue
+		}
+		if tail == nil || id > tailID {
+			tail, tailID = f, id
+		}
+	}
+	switch {
+	case tail == nil:
+		return "no-segment"
+	case tail.Size < 8:
+		return "shorter-than-footer"
+	}
+	var w [8]byte
+	for i := range w {
+		if off := tail.Size - 8 + int64(i); off < int64(len(tail.Data)) {
+			w[i] = tail.Data[off]
+		}
+	}
+	v := uint64(0)
+	for _, c := range w {
+		v = v<<8 | uint64(c)
+	}
+	switch {
+	case v>>63 == 1:
+		return "high-bit-set(negative-as-int64)"
+	case v > uint64(tail.Size-8):
+		return "positive-beyond-segment"
+	case v == uint64(tail.Size-8):
+		return "in-range(end-of-segment)"
+	}
+	return "in-range(inside-segment)"
 }
 
 // Entries appended after the recovery (never used by a history: op index i < 24 gives letters a..x).
@@ -1027,11 +1250,13 @@ func contextOf(cfg Cfg, im *crashfs.Image) (cx crashCtx, err error) {
 			continue
 		}
 		cx.NAcked++
-		switch mo.Op {
-		case OpAppend1, OpAppend9, OpAppendSeg:
+		if isAppend(mo.Op) {
 			if a.Result == "ok" {
 				cx.Appended = append(cx.Appended, EntryFor(cfg, mo.Op, mo.I))
 			}
+			continue
+		}
+		switch mo.Op {
 		case OpAdvance, OpScan1:
 			if rem() > 0 {
 				cx.Head++
@@ -1049,9 +1274,10 @@ func contextOf(cfg Cfg, im *crashfs.Image) (cx crashCtx, err error) {
 			return cx, err
 		}
 		cx.Infl = opClass(mo.Op)
-		switch mo.Op {
-		case OpAppend1, OpAppend9, OpAppendSeg:
+		if isAppend(mo.Op) {
 			cx.Unacked = EntryFor(cfg, mo.Op, mo.I)
+		}
+		switch mo.Op {
 		case OpAdvance, OpScan1:
 			cx.AdvMax = min(1, rem())
 		case OpScanAll:
@@ -1467,6 +1693,9 @@ func prepareCrashHistory(c *vlib.Ctx, scratch string, h CrashHistory) (pr *crash
 	crashLogCache[crashHistoryKey(h)] = l
 	crashLogMu.Unlock()
 	c.Extra("crash_histories", 1)
+	if h.Cfg.ByteFamily {
+		c.Extra("crash_bytefamily_histories", 1)
+	}
 	c.Extra("crash_events", int64(len(l.Events)))
 	c.Extra("crash_syscalls_in_logs", int64(l.Syscalls))
 	pr = &crashPrep{h: h, log: l}
@@ -1533,6 +1762,12 @@ func judgeCrashHistory(c *vlib.Ctx, pr *crashPrep, obs []*CrashObs, notes map[in
 					c.Extra("crash_images", 1)
 					c.Extra("crash_images_"+im.Desc.Kind, 1)
 					c.Extra("crash_cuts_at:"+cutClass(im), 1)
+					if h.Cfg.ByteFamily {
+						c.Extra("crash_bytefamily_images", 1)
+						if cx.Infl == "append" && im.Desc.TornLen >= 0 {
+							c.Extra("crash_bytefamily_torn_append_tail_window:"+tailWindowClass(im), 1)
+						}
+					}
 				}
 				nops := cx.NAcked
 				if cx.Infl != "none" && cx.Infl != "open" {
